@@ -181,7 +181,8 @@ def tasks_c16(tier, seed):
             ts += explore(s, CFG_DEFAULT, b, race=True, timeout=to)
     for s in ["Q1s", "Q2", "Q3"]:
         ts += explore(s, w1, b, race=True, timeout=to)
-        ts += explore(s, "w2-in1-tagged-route", b, race=True, shards=6 if s == "Q3" else 2, timeout=to)
+        ts += explore(s, "w1-in1-tagged-route", b, race=True, shards=2, timeout=to)
+    ts += explore("Q1s", "w2-in1-tagged-route", b, race=True, shards=4, timeout=to)
     for s in ["QE1-model", "QE1-panic", "QE2", "QEfail", "QEconc", "QEchain", "QEshutdown"]:
         ts += explore(s, w1, b, race=True, timeout=to)
     ts += STORE_RACE_TASKS(tier)
